@@ -1,20 +1,37 @@
 #!/bin/bash
-# For every /verif/benign/*.diff: apply to a scratch copy of /repo and run every property's quick
-# check; a benign refactor must produce no VIOLATION line anywhere. Writes benign/RESULTS.json.
+# For every /verif/benign/*.diff: apply to a scratch copy of a snapshot of /repo's working tree and
+# run the quick check of every property that has a function under contract in a package the
+# diff touches (obligations are per function; callers in other packages use contracts, not
+# bodies); a benign refactor must produce no VIOLATION line. Writes benign/RESULTS.json.
+# ALLPROPS=1 runs all 19 checks for every diff instead.
 cd /verif
+SNAP=$(mktemp -d /tmp/benignsnap.XXXXXX); trap 'rm -rf "$SNAP"' EXIT
+rsync -a --exclude .git /repo/ "$SNAP/"
+export MUT_SRC=$SNAP
+bin/gcv list > $SNAP/.gcvlist 2>/dev/null
 ALL="C01 C02 C03 C04 C05 C06 C07 C08 C09 C11 C12 C13 C14 C15 C16 C17 C18 C19 C20"
-echo "{" > /tmp/benign_results.$$
+props_for_pkg() { # $1 = package dir, e.g. limit or metric_registry/gometrics
+  awk -v pk="$1" '/^C[0-9][0-9] /{p=$1} /^    /{ if (index($0, pk".") > 0) print p }' $SNAP/.gcvlist | sort -u
+}
+OUT=/tmp/benign_results.$$
+echo "{" > $OUT
 first=1
 for d in benign/*.diff; do
-  n=$(basename $d); bad=""
-  for p in $ALL; do
+  n=$(basename $d); bad=""; ran=""
+  [ -n "${1:-}" ] && [ "$1" != "$n" ] && continue
+  pkgs=$(grep '^+++ ' $d | sed 's#^+++ [^/]*/##; s#/[^/]*$##; s#[[:space:]].*$##' | sort -u)
+  if [ -n "${ALLPROPS:-}" ]; then props=$ALL; else props=$( (for k in $pkgs; do props_for_pkg "$k"; done; echo C17) | sort -u); fi
+  for p in $props; do
+    [ $p = C10 ] && continue
+    ran="$ran $p"
     out=$(GCV_NOREPLAY=1 tools/mut.sh /verif/$d -- check $p 2>&1)
     if echo "$out" | grep -q "^VIOLATION"; then bad="$bad $p:$(echo "$out" | grep "^VIOLATION" | sed 's/.*obligation=\([^ ]*\).*/\1/' | head -2 | paste -sd',')"; fi
+    echo "$out" | grep -q "^C[0-9][0-9]: " || bad="$bad $p:check-did-not-complete"
   done
-  [ $first = 1 ] || echo "," >> /tmp/benign_results.$$; first=0
-  if [ -z "$bad" ]; then r="no alarm in any of the 19 checks"; else r="ALARMS:$bad"; fi
+  [ $first = 1 ] || echo "," >> $OUT; first=0
+  if [ -z "$bad" ]; then r="no alarm (checks run:$ran)"; else r="ALARMS:$bad"; fi
   echo "$n: $r"
-  printf ' "%s": "%s"' "$n" "$r" >> /tmp/benign_results.$$
+  printf ' "%s": "%s"' "$n" "$r" >> $OUT
 done
-echo "" >> /tmp/benign_results.$$; echo "}" >> /tmp/benign_results.$$
-mv /tmp/benign_results.$$ benign/RESULTS.json
+echo "" >> $OUT; echo "}" >> $OUT
+[ -z "${1:-}" ] && mv $OUT benign/RESULTS.json || rm -f $OUT
